@@ -24,6 +24,8 @@ def to_interrupts(rng, prog, max_n=3):
         n["fn"] = "term"
         n["pause_at"] = [1] if rng.random() < 0.8 else []
         n["is_async"] = rng.random() < 0.5          # the handler is an `async def` (it pauses by returning None all the same)
+        if not n["is_async"] and rng.random() < 0.4:
+            n["handler_kind"] = "future"            # ... or a plain function handing back a Future (run_in_executor style)
         if len(n["inputs"]) >= 2 and rng.random() < 0.4:
             # the interrupt's first two inputs were exchanged by ONE with_inputs() call: the value shown to the human is
             # that of the first CURRENT input name
@@ -190,6 +192,19 @@ def run(tier, seed):
                                 IR.func("Q", ["a2", "p"], ["q"])])
         chains.append({"prog": cprog, "base": [["x", "in.x"]], "provided": [["x", "in.x"]], "done": False, "pauses": [], "stage": 0, "ints": ["I1", "I2"]})
         ctx.distinct(IR.struct_hash([cprog, "chained", ans]))
+    # an interrupt BEHIND a gate: gate and interrupt become runnable in the same step; the interrupt's handler is reached only
+    # if the gate routes to it
+    for dec in ("approval", "auto"):
+        for dopen in (True, False):
+            for order in (0, 1):
+                G = IR.ifelse("G", ["draft"], "approval", "auto", [[dec]], default_open=dopen)
+                mk = IR.func("make", ["x"], ["draft"])
+                ap = IR.interrupt("approval", ["draft"], ["decision"], pause_at=[1])
+                au = IR.func("auto", ["draft"], ["auto_decision"])
+                nodes = [mk, G, ap, au] if order == 0 else [ap, au, G, mk]
+                gprog = IR.prog("top", nodes, max_iter=10)
+                chains.append({"prog": gprog, "base": [["x", "in.x"]], "provided": [["x", "in.x"]], "done": False, "pauses": [], "stage": 0, "ints": ["approval"]})
+                ctx.distinct(IR.struct_hash([gprog, "gated-interrupt"]))
     for script in ([["END"]], [["ask_user"], ["END"]]):
         prog = hitl_loop(script)
         chains.append({"prog": prog, "base": [], "provided": [], "done": False, "pauses": [], "stage": 0, "ints": ["ask_user"], "cyclic": True})
